@@ -12,7 +12,7 @@
    requires lit_ok) are refuted separately and are not repaired by the patch. *)
 From Coq Require Import List NArith Bool String.
 Import ListNotations.
-From PV Require Import C02.Syntax C02.Gen C02.Model C02.Facts C02.ParseProof C02.Shape C02.Witness.
+From PV Require Import C02.Syntax C02.Gen C02.Model C02.Facts C02.ParseProof C02.Shape C02.Witness C02.Head.
 
 (* sharpest form: the local, computable condition `safe` (= ok at the top position) *)
 Theorem C02_parse_write_safe_partial : forall R e, safe R e = true -> parse (write R e) = Some e.
@@ -96,3 +96,55 @@ Example C02_nonvacuous :
   "-a + b * c ** (d ** (-x)) < MAX(a, b - (c - d), dim=1) .OR. (.NOT.(f%vals(i:n + 1_8:2,1.5d3) .AND. (.true. .EQV. ck_""it's"" /= y)))"%string.
 Proof. exact nonvacuous. Qed.
 Print Assumptions C02_nonvacuous.
+
+(* ---- the writer as it is on /repo HEAD (R_head = rules_patch) ----
+   Wanted: forall e, wf e = true -> (parse (write R_head e) = Some e <-> no_bad_shape_head e = true),
+   with no_bad_shape_head the computable, position-aware predicate of C02/Head.v naming the
+   remaining classes (unbracketed unary left operand of a tighter binary operator: sign left of
+   * / **, .NOT. left of a relational/arithmetic operator).
+   Proved: the <- direction for all trees of any size and every rule set; both directions on the
+   finite domain of all trees with <= 2 operator levels (5472) and all operator chains of length 3
+   (35937) by a vm_compute sweep; a witness per class.  The -> direction for unbounded trees
+   (a bad shape anywhere always breaks the round trip) is NOT proved. *)
+Theorem C02_head_roundtrip_if_partial :
+  forall R e, wf e = true -> no_bad_shape R e = true -> parse (write R e) = Some e.
+Proof. exact no_bad_shape_roundtrip. Qed.
+Print Assumptions C02_head_roundtrip_if_partial.
+
+Theorem C02_head_roundtrip_iff_bounded : forall e, In e (small_trees ++ chains3) ->
+  (parse (write R_head e) = Some e <-> no_bad_shape_head e = true).
+Proof. exact head_roundtrip_iff_bounded. Qed.
+Print Assumptions C02_head_roundtrip_iff_bounded.
+
+Theorem C02_head_sweep_sizes :
+  N.of_nat (List.length small_trees) = 5472%N /\ N.of_nat (List.length chains3) = 35937%N.
+Proof. exact sweep_sizes. Qed.
+Print Assumptions C02_head_sweep_sizes.
+
+Example C02_head_bad_classes :
+  no_bad_shape_head w_neg_mul = false /\ parse (write R_head w_neg_mul) <> Some w_neg_mul /\
+  no_bad_shape_head (Bin Pow (Un Pos (v "a")) (v "b")) = false /\
+  no_bad_shape_head w_not_rel = false /\ parse (write R_head w_not_rel) <> Some w_not_rel /\
+  no_bad_shape_head w_pow = true /\ no_bad_shape_head w_rel_chain = true /\
+  no_bad_shape_head w_sign_deep = true /\ no_bad_shape_head w_plus_mul = true /\
+  no_bad_shape_head (Un Neg (Bin Mul (Un Neg (v "a")) (v "b"))) = true /\
+  no_bad_shape_head w_good = true.
+Proof. exact head_bad_classes. Qed.
+Print Assumptions C02_head_bad_classes.
+
+(* the generated precedence() table is an order embedding into the Fortran 2008 levels of the
+   grammar (same strict order, same ties), binary and unary operators together *)
+Theorem C02_prec_table_order :
+  (forall a b, Nat.compare (prec_bin a) (prec_bin b) = Nat.compare (lvl a) (lvl b)) /\
+  (forall u o, Nat.compare (prec_un u) (prec_bin o) = Nat.compare (pre_max u) (lvl o)) /\
+  (forall u w, Nat.compare (prec_un u) (prec_un w) = Nat.compare (pre_max u) (pre_max w)).
+Proof. exact (conj prec_order_bin (conj prec_order_un_bin prec_order_un)). Qed.
+Print Assumptions C02_prec_table_order.
+
+Example C02_prec_order_example :
+  prec_bin Eqv < prec_bin Or /\ prec_bin Or < prec_bin And /\ prec_bin And < prec_un Not /\
+  prec_un Not < prec_bin Eq /\ prec_bin Ge < prec_bin Sub /\ prec_bin Add < prec_bin Div /\
+  prec_bin Mul < prec_bin Pow /\ prec_bin Eqv = prec_bin Neqv /\ prec_bin Lt = prec_bin Ne /\
+  prec_un Neg = prec_bin Add /\ prec_bin Mul = prec_bin Div.
+Proof. exact prec_order_example. Qed.
+Print Assumptions C02_prec_order_example.
